@@ -66,6 +66,11 @@ class SeqSuite(Suite):
             for n in range(1, ln + 1):
                 for ops in itertools.product(alpha, repeat=n):
                     cases.append(self._mk(kind, ops))
+        # 1b. a push whose item constructor throws, with and without pops waiting
+        for n in range(1, 5 if tier == "quick" else 7):
+            for ops in itertools.product(["pushthrow", "push", "pop", "cons 2", "upop 3"], repeat=n):
+                if "pushthrow" in ops:
+                    cases.append(self._mk("q", ops))
         # 2. random longer histories with producer-heavy / consumer-heavy phases
         n = 2500 if tier == "quick" else 60000
         for i in range(n):
@@ -75,9 +80,7 @@ class SeqSuite(Suite):
             # callback consumers only in one case out of 16: if the queue ever resolved a promise under its lock every
             # such case would deadlock (and cost the harness's alarm time)
             cons_kinds = ["cons", "cbcons"] if i % 16 == 0 else ["cons"]
-            # same economy for a throwing item constructor: if `push` ever left the lock locked, every later operation
-            # of such a case would hang until the harness's alarm
-            throwing = kind == "q" and i % 16 == 8
+            throwing = kind == "q" and i % 2 == 0
             ops = []
             for k in range(nops):
                 if rng.random() < 0.15:
@@ -217,8 +220,9 @@ class SeqSuite(Suite):
             elif w[0] == "pushthrow":
                 if "nothrow" in head:
                     msgs.append("spurious: the push of an item whose constructor throws returned normally")
-                if completions:
-                    msgs.append("spurious: a push that threw resolved %s" % completions)
+                # no item exists; the only future it may touch is the oldest waiting pop, which it may only cancel
+                if completions and (not pend or completions != [(pend[0], "canceled")]):
+                    msgs.append("spurious: a push that threw (pops %s waiting) resolved %s" % (pend, completions))
             elif w[0] in ("cons", "cbcons"):
                 if any(pop_state.get(i) == "pending" for i, o in completions):
                     msgs.append("spurious: %s resolved older futures %s" % (w[0], completions))
@@ -243,7 +247,8 @@ class SeqSuite(Suite):
                     msgs.append("spurious: empty resolved %s" % completions)
             # register what happened to the pop futures during this op (ids ascending = issue order)
             for i, o in evs:
-                if o is not None and not is_value(o) and not (w[0] == "upop" and o.startswith("exc:")):
+                if o is not None and not is_value(o) and not (w[0] == "upop" and o.startswith("exc:")) \
+                        and not (w[0] == "pushthrow" and o == "canceled"):
                     msgs.append("spurious: pop#%d resolved with %s during `%s` on a live queue" % (i, o, op))
                 if o is None:
                     new_pop(i, "pending")
@@ -330,8 +335,8 @@ class SchedSuite(Suite):
                         cases.append(self._mk(kind, ops))
         # a push whose item constructor throws, followed by other operations
         for n in range(1, 5 if tier == "quick" else 7):
-            for ops in itertools.product(["pushthrow", "push", "pop", "size"], repeat=n):
-                if "pushthrow" in ops[:-1] or ops == ("pushthrow",):
+            for ops in itertools.product(["pushthrow", "push", "pop", "size", "deliver 0"], repeat=n):
+                if "pushthrow" in ops:
                     cases.append(self._mk("sq", ops))
         n = 3000 if tier == "quick" else 60000
         for i in range(n):
@@ -369,7 +374,7 @@ class SchedSuite(Suite):
                     continue
                 if held:
                     npend += 1          # blocked
-                elif rng.random() < holdp and op != "pushthrow":
+                elif rng.random() < holdp:
                     op = "hold " + op
                     held = True
                     npend += 1
@@ -384,7 +389,7 @@ class SchedSuite(Suite):
                         items -= 1
                     else:
                         parked += 1
-                elif op.startswith("upop") and parked:
+                elif (op.startswith("upop") or op == "pushthrow") and parked:
                     parked -= 1
                     npend += 1
                 ops.append(op)
@@ -464,7 +469,7 @@ class SchedSuite(Suite):
 
         def takers():
             """calls in progress that may still take a waiting pop"""
-            return sum(1 for c in parked if c["type"] in ("deferred", "midcall") and c["w"][0] in ("push", "upop"))
+            return sum(1 for c in parked if c["type"] in ("deferred", "midcall") and c["w"][0] in ("push", "upop", "pushthrow"))
 
         def apply(w, label, status, completions):
             """the operation `w` takes effect now, returning / parking with `status`"""
@@ -497,8 +502,21 @@ class SchedSuite(Suite):
                     elif strict and len(waiters) > takers():
                         msgs.append("lost: push with pops %s waiting did not take one" % waiters)
             elif w[0] == "pushthrow":
+                # no item comes into existence.  A push that had taken a waiting pop's promise before its item
+                # construction threw must complete that pop (as canceled) - it may not leave it pending
                 if status == "nothrow":
                     msgs.append("spurious: the push of an item whose constructor throws returned normally")
+                elif status == "paused":
+                    if not waiters:
+                        if strict:
+                            msgs.append("spurious: a throwing push took a promise with nobody waiting")
+                    else:
+                        tgt = waiters.pop(0)
+                        early = completions == [(tgt, "canceled")]
+                        parked.append({"type": "resolve", "pop": tgt, "out": "canceled", "ret": "pushthrow:threw",
+                                       "early": early, "tag": "pushthrow"})
+                        if early:
+                            expect = [(tgt, "canceled")]
             elif w[0] == "pop":
                 i = int(label[4:])
                 if status == "pending":
@@ -611,7 +629,7 @@ class SchedSuite(Suite):
                             if completions != expect:
                                 msgs.append("%s: the call that took pop#%d must resolve exactly it with %s, got %s"
                                             % (c["tag"], c["pop"], c["out"], completions))
-                            if c["ret"].startswith("push"):
+                            if c["ret"].startswith("push:"):
                                 pushes_done += 1
                     else:
                         if status in ("midcall", "blocked"):
@@ -755,23 +773,20 @@ class C09(Spec):
     technique = "Lean 4 invariant proof (induction over all operation lists) + differential correspondence with the real header + thread stress"
     level_text = ("Lean 4 theorems over an executable model of queue<T> (one step per lock region, out-of-lock promise resolutions as "
                   "separate steps): FIFO refinement delivered++queued = pushed, exactly-once, one resolution per pop, waiters served in "
-                  "arrival order, single-consumer and per-producer order, pop completes only by item/unblock_pop/destruction, "
+                  "arrival order, single-consumer and per-producer order, pop completes only by item/unblock_pop/destruction/a push whose "
+                  "item construction threw, "
                   "unblock_pop hits exactly the oldest waiter; queue<void> proved to be the image of queue<T> under forgetting the "
                   "items (count conserved, clamp never fires); for every operation list = every interleaving of any number of producers "
                   "and consumers. The models are tied to queue.h by running both on every short history and on generated histories and "
                   "diffing every line; property oracles run on the implementation trace; a scheduled suite instantiates the queue with a parking "
                   "Lock (out-of-lock resolutions delayed past other lock regions, operations issued while another one holds the lock, "
                   "any second lock region of one operation, lock regions per operation compared with the model, a push whose item "
-                  "constructor throws); items own a heap resource and track their lifetime; a further suite runs real producer/consumer threads")
+                  "constructor throws, with and without pops waiting); items own a heap resource and track their lifetime; a further suite runs real producer/consumer threads")
     level_note = ("trusted: Lean kernel (axioms propext/Classical.choice/Quot.sound at most), the hand-written models, the differential "
                   "harness (sampling + exhaustive short histories), std::queue/std::mutex and the promise/future layer (C01/C02). Thread "
                   "interleavings are covered by the theorems (any interleaving of lock regions and resolutions is an op list); on the real "
                   "code they are exercised sequentially (futures and re-entrant coroutine consumers) and by a thread stress suite")
     assumptions = ["the queue is not destroyed while another thread is inside one of its methods",
-                   "a push whose item constructor throws is covered only when no pop is waiting (`pushthrow`, precondition explicit in "
-                   "model, driver and harness): with a parked promise the constructor runs inside promise::operator() after the promise "
-                   "was moved out of the queue and claimed - the waiting pop then never completes, not even at destruction; that is the "
-                   "promise layer's exception safety (C01), observed on the pinned code, not a queue.h decision",
                    "a consumer's receive order is the order of its pop() calls (a consumer that keeps several pops outstanding may see "
                    "their futures resolved in another order when different producers resolve them)",
                    "std::mutex gives mutual exclusion (each lock region is atomic)"]
